@@ -9,14 +9,23 @@ RULE = ('random policy configurations (default / user / group / at_console / man
         'broadcast messages of all four types with fields present or absent, replies requested and not, match rules incl. eavesdropping; the '
         'model applies PolicyOps.tla (last matching rule wins, default deny) to every send, every receive and every own; '
         'distinct = distinct (configuration, history) texts')
-W = {'req': 3, 'rel': 0.7, 'query': 0.3, 'addmatch': 1.2, 'rmmatch': 0.2, 'signal': 4, 'call': 5, 'reply': 3.5,
+W = {'req': 2, 'rel': 0.5, 'query': 0.3, 'addmatch': 0.8, 'rmmatch': 0.2, 'signal': 6, 'call': 5, 'reply': 3.5,
      'usignal': 2, 'close': 0.3, 'driver_other': 0.2, 'nodest': 0.1}
 
 
 def gen(rng, i):
     cfg = {'policy_ctxs': policygen.random_ctxs(rng), 'groups_of': policygen.GROUPS_OF}
     g = gen_bus.Gen(rng, nslots=4, nnames=3, uids=(0, 1000, 65534), w=W, cfg=cfg, odd_rules=0.0, eavesdrop=0.2)
-    return g.scenario(nrounds=rng.choice([10, 14]), concurrency=0.25, burst=0.35)
+    scn = g.scenario(nrounds=rng.choice([10, 14]), concurrency=0.25, burst=0.35)
+    # a cast for the destination / sender / own rules: everybody tries to own (or queue for) names and listens broadly
+    cast = []
+    for s in g.slots:
+        ops = [{'k': 'req', 'n': rng.choice(g.names), 'f': rng.choice([0, 1, 4])} for _ in range(rng.choice([1, 2]))]
+        ops.append({'k': 'addmatch', 'rule': rng.choice(["type='signal'", "", "type='signal',interface='com.example.I'"])})
+        cast.append({'ops': {str(s): ops}})
+    n0 = len(g.slots)
+    scn['rounds'] = scn['rounds'][:n0] + cast + scn['rounds'][n0:]
+    return scn
 
 
 def run(ctx):
